@@ -4,7 +4,7 @@
     structural (a Fixpoint over the characters of the token). *)
 From Coq Require Import List NArith ZArith.
 From Cicada Require Import Base.Chars Base.Tag Model.Expand Model.ExpandRef
-  Proofs.ExpandBasics Proofs.EnvProofs Proofs.ExpandOnceProofs Proofs.EnvGate Proofs.SubstProofs Proofs.ExpandInert.
+  Proofs.ExpandBasics Proofs.EnvProofs Proofs.ExpandOnceProofs Proofs.EnvGate Proofs.SubstProofs Proofs.ExpandInert Model.GateVariant Proofs.GateVariantProofs.
 From Cicada Require Model.Tokenizer.
 Import ListNotations.
 Local Open Scope N_scope.
@@ -86,6 +86,18 @@ Example C10_untagged_value_is_syntax :
   = Ok [(TNone, [101; 99; 104; 111]); (TNone, [124])].
 Proof. exact untagged_value_is_syntax. Qed.
 
+(** About the PROPOSED repair notes/C10-fix-2.patch (Model/GateVariant.v): the gate is told when the token was
+    double-quoted and skips the alias-definition exemption there.  Then a double-quoted word only has to avoid an
+    open paren and (an equals sign together with a BACKQUOTE); single quotes are harmless; other tags unchanged. *)
+Theorem C10_variant_dq_gate : forall W ps, wf_pieces ps = true -> gate_ok_dq ps = true ->
+  expand_env_tok_v W (TDq, render_pieces ps) = (TDq, den_pieces W ps).
+Proof. exact expand_env_tok_v_dq. Qed.
+Theorem C10_variant_other_tags : forall W t, fst t <> TDq -> expand_env_tok_v W t = expand_env_tok W t.
+Proof. exact expand_env_tok_v_other. Qed.
+Example C10_variant_exemption_gone :
+  expand_env_tok_v (world_of [([65], [118])] []) (TDq, [120; 61; 39; 36; 65; 39]) = (TDq, [120; 61; 39; 118; 39]).
+Proof. exact gate_variant_dq_expands. Qed.
+
 Check C10_scan : forall W ps, wf_pieces ps = true -> expand_env_once W (render_pieces ps) = den_pieces W ps.
 Check C10_refuted : ~ C10_full.
 Check C10_partial : forall W ps tg,
@@ -114,3 +126,4 @@ Print Assumptions C10_line.
 Print Assumptions C10_single_quoted.
 Print Assumptions C10_single_quoted_in_line.
 Print Assumptions C10_do_expansion_inert.
+Print Assumptions C10_variant_dq_gate.
